@@ -81,6 +81,25 @@ oracle: the property statement evaluated with brute-force sums over ALL source
        With a periodic domain (the ghosts' densities are not those of their
        originals) only what holds for any finite positive volumes is demanded:
        finite values and reproduction of a constant with zero gradient.
+shared: the source arrays are state SHARED between calls, with the caller and
+       with every other evaluator built over them.  Histories therefore (a) change
+       masses, densities, values of the interpolated properties and constants IN
+       PLACE WITHOUT update() (`touch`: positions and h stay, so the neighbour
+       lists stay valid; model `Op.touch`, the binding state and its `current`
+       flag must not change) and interpolate again on the same object, and (b)
+       build a SECOND Interpolator / SPHEvaluator over the same arrays (`peer`:
+       points of its own; for order1 another kernel, so that the summation
+       density it leaves in the shared `rho` is not the first one's; it also
+       overwrites every `temp_prop`), interleave its calls with the first one's,
+       and judge BOTH with the tie and the oracle.  Every interpolate() must give
+       the defining sums of the data as they are at the call.  Per order1 call
+       one `O1` line ties the whole compute (model `order1Compute`: group 1
+       overwrites rho of every source particle, groups 2 and 3 read it) starting
+       from the rho the arrays held BEFORE the call.  A corpus history per
+       configuration does all of it (round-4 seed B: order1 re-used the moment
+       matrix of an earlier call).  No peer with a periodic domain (two domain
+       managers would own the ghosts of the same arrays); there `touch` is
+       followed by update() (the ghosts are copies).
 jobs:  one process per configuration; a soft time budget per job (no new history
        is started after it, reported) and a hard one (job killed = machinery
        error): the check cannot hang and a loaded machine shortens the random
@@ -157,7 +176,7 @@ def configs(tier):
     return c
 
 
-def reset_group_names(cfg):
+def reset_group_names(cfg, peer=False):
     """pysph numbers unnamed Groups with a process-wide counter and the number
     ends up in the generated source: without this every Interpolator of a run
     is a new ~10 s compilation.  Restart the numbering before each evaluator is
@@ -168,10 +187,42 @@ def reset_group_names(cfg):
     import pysph.sph.equation as EQ
     allc = configs('thorough')
     base = 100 * (1 + allc.index(cfg)) if cfg in allc else 0
+    if peer:
+        # the second evaluator over the same arrays (see `peer_cfg`): numbering of
+        # its own, so that the peers of two configurations that differ only in
+        # `dim` are not the same module either
+        base += 50
     EQ.group_counter = itertools.count(base)
 
 
-from pysph.sph.equation import Equation     # noqa: E402 (import only: nothing of pysph runs in the parent)
+PEER_KERNEL = {'CubicSpline': 'QuinticSpline', 'Gaussian': 'CubicSpline',
+               'QuinticSpline': 'Gaussian', 'WendlandQuintic': 'CubicSpline'}
+
+
+def peer_cfg(cfg):
+    """configuration of the SECOND Interpolator / SPHEvaluator a history builds
+    over the same source arrays.  For order1 (which WRITES the shared `rho` of the
+    source arrays: summation density with its own kernel) it has another kernel,
+    so that what it leaves in the arrays differs from what the first one computes
+    (one more run-time compilation per order1 configuration); for the other
+    methods the same configuration (same generated module, no compilation) at
+    points of its own.  None: no peer (periodic domains: two domain managers
+    would both own the ghosts of the shared arrays)."""
+    if cfg['periodic']:
+        return None
+    pc = dict(cfg)
+    if cfg['method'] == 'order1' and cfg['api'] == 'interp':
+        pc['kernel'] = PEER_KERNEL.get(cfg['kernel'], 'CubicSpline')
+    return pc
+
+
+# The probe equations live in a module of their own, written into the run's work
+# directory: pysph's code generator fetches the TEXT of an equation class with
+# inspect.getsource, i.e. from the file on disk by line number -- were they
+# defined in this file, an edit of harness/c14.py while a run is in progress
+# would paste unrelated harness lines into the generated .pyx.
+PROBE_SRC = '''"""probe equations of harness/c14.py (generated, do not edit)"""
+from pysph.sph.equation import Equation
 
 
 class RefDensitySum(Equation):
@@ -194,6 +245,29 @@ class RefDensitySumGain(Equation):
 
     def loop(self, d_idx, s_idx, s_m, s_rho0, s_temp_prop, d_prop, d_gain, WIJ):
         d_prop[d_idx] += d_gain[0]*s_m[s_idx]/s_rho0[0]*WIJ*s_temp_prop[s_idx]
+'''
+
+RefDensitySum = RefDensitySumGain = None
+
+
+def load_probes(work):
+    """write the probe equations to <work>/c14_probes_<pid>.py and import them
+    (before the workers are forked: they inherit the module)"""
+    global RefDensitySum, RefDensitySumGain
+    import importlib.util
+    os.makedirs(work, exist_ok=True)
+    name = 'c14_probes_%d' % os.getpid()
+    path = os.path.join(work, name + '.py')
+    with open(path, 'w') as fh:
+        fh.write(PROBE_SRC)
+    spec = importlib.util.spec_from_file_location(name, path)
+    mod = importlib.util.module_from_spec(spec)
+    sys.modules[name] = mod
+    spec.loader.exec_module(mod)
+    import inspect
+    if inspect.getsource(mod.RefDensitySum).count('s_rho0[0]') != 1:
+        raise SystemExit('harness: cannot read back the text of the probe equations')
+    RefDensitySum, RefDensitySumGain = mod.RefDensitySum, mod.RefDensitySumGain
 
 
 def kernel_obj(name, dim):
@@ -530,6 +604,73 @@ def gen_mutate(rng, cfg, cur, lin, const, psets, k=None):
             'update_domain': (not same_h) or rng.random() < 0.4}
 
 
+def touched_spec(old, op):
+    """the history's view of a source array after a `touch` op"""
+    new = dict(old)
+    st = op['set']
+    for key in ('m', 'rho'):
+        if st.get(key) is not None:
+            new[key] = list(st[key])
+    if st.get('props'):
+        new['props'] = dict(old['props'])
+        for nm, v in st['props'].items():
+            new['props'][nm] = list(v)
+    if st.get('consts'):
+        new['consts'] = dict(old.get('consts') or {})
+        new['consts'].update(st['consts'])
+    new.pop('temp0', None)
+    return new
+
+
+def gen_touch(rng, cfg, cur, k=None, what=None):
+    """the caller changes DATA of source array k in place -- masses, densities,
+    values of the interpolated properties, constants; positions and smoothing
+    lengths stay, so the neighbour lists stay valid -- and does NOT call
+    update(): the next interpolate() must give the defining sums of the data as
+    they are now.  (With a periodic domain the ghosts are copies made by
+    update(): there the caller has to call it.)"""
+    if k is None:
+        k = rng.randrange(len(cur))
+    old = cur[k]
+    n = len(old['x'])
+    if what is None:
+        what = rng.choice(['m', 'm', 'rho', 'props', 'all', 'all'])
+    st = {}
+    if what in ('m', 'all'):
+        if rng.random() < 0.3:
+            f = rng.choice([3.0, 0.25])
+            st['m'] = [v * f for v in old['m']]
+        else:
+            st['m'] = [v * rng.uniform(0.4, 2.5) for v in old['m']]
+    if what in ('rho', 'all'):
+        st['rho'] = [rng.uniform(0.5, 2.0) for _ in range(n)]
+    if what in ('props', 'all'):
+        st['props'] = {}
+        for nm in sorted(old['props']):
+            if nm in ('lin', 'c'):
+                continue        # stay the linear / the constant field
+            lo, hi = {'p': (-2.0, 3.0), 'q': (0.0, 1.0), 'r': (-40.0, -30.0)}[nm]
+            st['props'][nm] = [rng.uniform(lo, hi) for _ in range(n)]
+        if rng.random() < 0.5:
+            st['consts'] = {'rho0': rng.uniform(0.5, 2.0)}
+    return {'op': 'touch', 'array': k, 'set': st,
+            'update': bool(cfg['periodic']) or rng.random() < 0.15}
+
+
+def gen_peer_op(rng, cfg, cur, points, ints_ok=False, dtype=None):
+    """a second Interpolator / SPHEvaluator over the SAME source arrays (created
+    by the first such op of a history, with points of its own) interpolates: it
+    writes the state the two share -- `temp_prop` of every source array, and with
+    order1 their `rho`"""
+    op = {'op': 'peer', 'points': None,
+          'calls': [{'prop': o['prop'], 'comp': o['comp']}
+                    for o in gen_interp_seq(rng, cfg)]}
+    if points:
+        op['points'] = gen_points(rng, cfg, cur, allow_grid=False, ints_ok=ints_ok,
+                                  dtype=dtype)
+    return op
+
+
 def scale_case(case, S):
     """the same history in the box [0, S]^d instead of the unit box: positions,
     smoothing lengths, domain bounds times S, masses times S^d (so that m/rho*W
@@ -565,6 +706,13 @@ def scale_case(case, S):
                 spec(sp)
         elif op['op'] == 'newpoints':
             points(op['points'])
+        elif op['op'] == 'peer':
+            if op.get('points'):
+                points(op['points'])
+        elif op['op'] == 'touch':
+            if op['set'].get('m') is not None and id(op['set']) not in done:
+                done.add(id(op['set']))
+                op['set']['m'] = [v * S ** d for v in op['set']['m']]
         elif op['op'] == 'setdomain':
             op['bounds'] = [v * S for v in op['bounds']]
     case['lin'] = [case['lin'][0]] + [v / S for v in case['lin'][1:]]
@@ -597,13 +745,31 @@ def gen_case(rng, cfg, nops=None, psets=None, small=False, prefill=None,
     cur = arrays
     ops = case['ops']
     ops.extend(gen_interp_seq(rng, cfg))
+    have_peer = False
     for _ in range(nops if nops is not None else rng.randint(2, 5)):
         kind = rng.choice(['interp', 'mutate', 'mutate', 'newarrays',
-                           'newpoints', 'movepoints', 'setdomain'])
+                           'newpoints', 'movepoints', 'setdomain',
+                           'touch', 'touch', 'peer', 'peer'])
         if kind == 'interp':
             ops.extend(gen_interp_seq(rng, cfg))
             continue
-        if kind == 'mutate':
+        if kind == 'touch':
+            op = gen_touch(rng, cfg, cur)
+            ops.append(op)
+            cur = list(cur)
+            cur[op['array']] = touched_spec(cur[op['array']], op)
+        elif kind == 'peer':
+            if peer_cfg(cfg) is None:
+                # no second evaluator with a periodic domain: a data change
+                op = gen_touch(rng, cfg, cur)
+                ops.append(op)
+                cur = list(cur)
+                cur[op['array']] = touched_spec(cur[op['array']], op)
+            else:
+                ops.append(gen_peer_op(rng, cfg, cur, (not have_peer) or rng.random() < 0.3,
+                                       ints_ok, dtype))
+                have_peer = True
+        elif kind == 'mutate':
             op = gen_mutate(rng, cfg, cur, lin, const, psets)
             ops.append(op)
             cur = list(cur)
@@ -727,9 +893,12 @@ def impl_call(what, fn, *a, **kw):
 class Session:
     """One Interpolator / SPHEvaluator driven through a case's history."""
 
-    def __init__(self, case):
+    def __init__(self, case, share=None):
+        """`share`: another Session -- this one is built over THAT one's source
+        arrays (the same objects), with the configuration / points of `case`"""
         from pysph.tools.interpolator import Interpolator
         self.case = case
+        self.is_peer = share is not None
         cfg = self.cfg = case['cfg']
         self.kernel = kernel_obj(cfg['kernel'], cfg['dim'])
         self.objs = []          # keep every object alive: ids are labels
@@ -753,14 +922,18 @@ class Session:
                 kw[key + 'max'] = self.S
                 kw['periodic_in_' + key] = True
             self.domain = DomainManager(**kw)
-        self.srcs = [make_pa(sp) for sp in case['arrays']]
-        self.specs = list(case['arrays'])   # the history's view of each array
+        if share is None:
+            self.srcs = [make_pa(sp) for sp in case['arrays']]
+            self.specs = list(case['arrays'])   # the history's view of each array
+        else:
+            self.srcs = list(share.srcs)
+            self.specs = list(share.specs)
         self.pre = None
         for pa in self.srcs:
             self.label(pa)
         self.computes_on_points = 0
         pts = case['points']
-        reset_group_names(cfg)
+        reset_group_names(share.cfg if share is not None else cfg, peer=share is not None)
         if cfg['api'] == 'interp':
             kw = {}
             if pts['kind'] == 'explicit':
@@ -972,6 +1145,10 @@ class Session:
         return self.ip.nnps if self.cfg['api'] == 'interp' else self.ev.nnps
 
     def bind_obs(self):
+        if not self.bstale or not self.blines[-1].startswith(('B mutate', 'B touch', 'B update')):
+            # construction or a rebinding: a NEW neighbour structure, its cell
+            # size computed from the present smoothing lengths
+            self.h_dom = self.h_binned()
         lab = lambda o: self.labels.get(id(o), 0)  # noqa
         if self.cfg['api'] == 'interp':
             ip = self.ip
@@ -1026,7 +1203,37 @@ class Session:
             self.bobs.append(self.bind_obs())
             self.bstale.append(True)
             if op['update']:
-                self.do_update(op.get('update_domain', True))
+                ud = op.get('update_domain', True)
+                if not ud and self.h_binned() != self.h_dom:
+                    # update(update_domain=False) keeps the cell size: legitimate
+                    # only when no smoothing length changed since the cell size
+                    # was computed -- also not in an EARLIER in-place change that
+                    # was left without update()
+                    ud = True
+                self.do_update(ud)
+        elif kind == 'touch':
+            pa = self.srcs[op['array']]
+            sp = self.specs[op['array']]
+            order = [i for i, t in enumerate(sp['tag']) if t == 0] + \
+                    [i for i, t in enumerate(sp['tag']) if t != 0]
+            st = op['set']
+            for key in ('m', 'rho'):
+                if st.get(key) is not None:
+                    arr = pa.get(key, only_real_particles=False)
+                    arr[:len(order)] = [st[key][i] for i in order]
+            for nm, v in (st.get('props') or {}).items():
+                arr = pa.get(nm, only_real_particles=False)
+                arr[:len(order)] = [v[i] for i in order]
+            for nm, v in (st.get('consts') or {}).items():
+                pa.get_carray(nm).get_npy_array()[:] = v
+            self.specs = list(self.specs)
+            self.specs[op['array']] = touched_spec(sp, op)
+            # data changed, geometry did not: the neighbour lists stay current
+            self.blines.append('B touch o=%d' % self.labels[id(pa)])
+            self.bobs.append(self.bind_obs())
+            self.bstale.append(self.bstale[-1])
+            if op['update']:
+                self.do_update(True)
         elif kind == 'movepoints':
             rng = random.Random(op['seed'])
             pa = self.target
@@ -1096,9 +1303,33 @@ class Session:
         else:
             raise ValueError(kind)
 
+    def follow(self, other):
+        """(peer) the first Session's source arrays were replaced: this one is
+        handed the same new arrays"""
+        self.srcs = list(other.srcs)
+        self.specs = list(other.specs)
+        for pa in self.srcs:
+            self.label(pa)
+        if self.cfg['api'] == 'interp':
+            impl_call('update_particle_arrays (second Interpolator)',
+                      self.ip.update_particle_arrays, self.srcs)
+        else:
+            for a in self.srcs:
+                if 'temp_prop' not in a.properties:
+                    a.add_property('temp_prop')
+            impl_call('SPHEvaluator.update_particle_arrays (second evaluator)',
+                      self.ev.update_particle_arrays, self.srcs + [self.dest])
+
+    def h_binned(self):
+        """the smoothing lengths the cell size of the neighbour structure depends
+        on: those of the source arrays (history's view)"""
+        return [list(sp['h']) for sp in self.specs]
+
     def do_update(self, update_domain):
         if self.domain is not None:
             update_domain = True     # ghosts must follow the particles
+        if update_domain:
+            self.h_dom = self.h_binned()
         if self.cfg['api'] == 'interp':
             impl_call('update', self.ip.update, update_domain=update_domain)
         else:
@@ -1230,12 +1461,17 @@ def pair_h(method, hd, hs):
     return 0.5 * (hd + hs)
 
 
+LAST_IDS = []       # (array, index) of the records of the latest records_for call
+
+
 def records_for(k, method, dpos, hd, srcs, listed, want_grad, rhos=None):
     """neighbour records for one destination: the listed neighbours in the
     implementation's order, then every unlisted particle with a non-zero kernel
     value (or gradient).  Returns (flat list of floats, n_listed, n_extra)."""
     flat = []
     nl = ne = 0
+    ids = LAST_IDS
+    del ids[:]
     for a, s in enumerate(srcs):
         lst = listed[a]
         seen = set(lst)
@@ -1252,6 +1488,7 @@ def records_for(k, method, dpos, hd, srcs, listed, want_grad, rhos=None):
                 else:
                     nl += 1
                 rho = s['rho'][j] if rhos is None else rhos[a][j]
+                ids.append((a, j))
                 flat += [w, g[0], g[1], g[2], spos[0], spos[1], spos[2],
                          s['m'][j], rho, s['temp_prop'][j]]
     return flat, nl, ne
@@ -1355,12 +1592,19 @@ def observe(ses, op, res, where):
     if method == 'order1':
         # SummationDensity (group 1) overwrote rho of every source particle:
         # tie it first, then feed the implementation's rho to the point lines
+        offs = [0]
+        for s1 in srcs:
+            offs.append(offs[-1] + len(s1['x']))
+        o1_lens, o1_sk, o1_sw = [], [], []
         for a1, s1 in enumerate(srcs):
             lst = nbr_lists(ses, a1, len(s1['x']), narr)
             for j in range(len(s1['x'])):
                 dpos = (s1['x'][j], s1['y'][j], s1['z'][j])
                 flat, nl, ne = records_for(k, 'rho', dpos, s1['h'][j], srcs,
                                            lst[j], False)
+                o1_lens.append(len(LAST_IDS))
+                o1_sk += [offs[aa] + jj for (aa, jj) in LAST_IDS]
+                o1_sw += flat[0::10]
                 out['lines'].append('pt method=rho tol=%s nb=%s' % (
                     H.fbits(TOL12), H.flist(flat)))
                 out['expect'].append(('rho', where + ' rho[%d][%d]' % (a1, j),
@@ -1368,12 +1612,39 @@ def observe(ses, op, res, where):
                 if ne:
                     c('unlisted-nonzero-neighbours', ne)
         c('rho-lines', sum(len(s['x']) for s in srcs))
+    o1_done = False
     for i in range(nt):
         dpos = (tgt['x'][i], tgt['y'][i], tgt['z'][i])
         hd = tgt['h'][i]
         flat, nl, ne = records_for(k, method, dpos, hd, srcs, listed[i], want_grad)
         if ne:
             c('unlisted-nonzero-neighbours', ne)
+        if method == 'order1' and not o1_done and (nl >= 2 or i == nt - 1) and \
+                all(len(p['vals']['rho']) == len(s1['x']) for p, s1 in zip(ses.pre, srcs)):
+            # the whole compute for this point on the SHARED arrays as the call
+            # found them (model: order1Compute): the rho the arrays held BEFORE
+            # the call (the caller's, or what another evaluator left), the masses
+            # and staged values, the kernel values among the sources
+            o1_done = True
+            old_rho = [v for p in ses.pre for v in p['vals']['rho'].tolist()]
+            pn = []
+            for t in range(len(LAST_IDS)):
+                pn += flat[10 * t:10 * t + 7]
+            out['lines'].append(
+                'O1 tol=%s dim=%d d=%s m=%s f=%s rho=%s lens=%s sk=%s sw=%s pk=%s pn=%s' % (
+                    H.fbits(TOL12), cfg['dim'], H.flist(dpos),
+                    H.flist([v for s1 in srcs for v in s1['m']]),
+                    H.flist([v for s1 in srcs for v in s1['temp_prop']]),
+                    H.flist(old_rho), H.ilist(o1_lens), H.ilist(o1_sk), H.flist(o1_sw),
+                    H.ilist(offs[aa] + jj for (aa, jj) in LAST_IDS), H.flist(pn)))
+            exp = 'val %s mom %s psph %s rho %s' % (
+                H.flist(tgt['prop4'][i]), H.flist(tgt['moment'][i]), H.flist(tgt['p_sph'][i]),
+                H.flist([v for s1 in srcs for v in s1['rho']]))
+            out['expect'].append(('o1', where + ' whole compute for point %d on the shared arrays' % i,
+                                  exp, {'comp': op['comp'], 'res': res[i]}))
+            c('order1-whole-compute-lines')
+            if any(a != b for a, b in zip(old_rho, [v for s1 in srcs for v in s1['rho']])):
+                c('order1-whole-compute:rho-before-call-differs-from-density')
         if nl >= 2:
             out['nontrivial'] = True
         c('nbrs:%s' % ('0' if nl == 0 else '1-4' if nl < 5 else '5-19' if nl < 20 else '20+'))
@@ -1676,8 +1947,42 @@ def run_case(case, R_like):
     # the model decides whether neighbour lists are current; mirror its rule
     # here only to know when NOT to interpolate (an out-of-contract call)
     stale = False
+    peer = None             # the second evaluator over the same source arrays
+    peer_stale = False
     try:
         for t, op in enumerate(case['ops']):
+            if op['op'] == 'peer':
+                pc = peer_cfg(cfg)
+                if pc is None:
+                    raise SystemExit('harness: peer op in a configuration without peers')
+                if peer is None:
+                    if not op.get('points'):
+                        raise SystemExit('harness: first peer op without points')
+                    pcase = dict(case, cfg=pc, points=op['points'], default_kernel=False)
+                    peer = Session(pcase, share=ses)
+                    peer_stale = False
+                    c('peer:created')
+                else:
+                    if peer_stale:
+                        # the shared arrays moved since: its own update()
+                        peer.do_update(True)
+                        peer_stale = False
+                        c('peer:update')
+                    if op.get('points'):
+                        peer.apply({'op': 'newpoints', 'points': op['points']})
+                        c('peer:newpoints')
+                for call in op['calls']:
+                    res = peer.interpolate(call['prop'], call['comp'])
+                    where = 'op %d second evaluator (%s) interpolate(%s,%d)' % (
+                        t, pc['kernel'], call['prop'], call['comp'])
+                    o = observe(peer, call, res, where)
+                    o['op_index'] = t
+                    obs.append(o)
+                    c('peer:interp')
+                    c('peer:interp:%s' % ('other-kernel' if pc['kernel'] != cfg['kernel']
+                                          else 'same-configuration'))
+                c('op:peer')
+                continue
             if op['op'] == 'interp':
                 if stale:
                     c('interp-skipped-stale-neighbours')
@@ -1690,6 +1995,8 @@ def run_case(case, R_like):
                 obs.append(o)
                 c('interp:%s' % prop)
                 c('after:%s' % (case['ops'][t - 1]['op'] if t else 'construction'))
+                if ses.computes_on_points > 1 and t and case['ops'][t - 1]['op'] in ('touch', 'peer'):
+                    c('interp-again-on-same-bindings-after:%s' % case['ops'][t - 1]['op'])
             else:
                 ses.apply(op)
                 c('op:%s' % op['op'])
@@ -1697,15 +2004,34 @@ def run_case(case, R_like):
                     stale = not op['update']
                     if stale:
                         c('history-left-stale')
+                elif op['op'] == 'touch':
+                    # data only: neighbour lists that were current stay current
+                    # (an update() that comes with it makes them current)
+                    c('touch:%s' % '+'.join(sorted(k for k, v in op['set'].items() if v)))
+                    if op['update']:
+                        stale = False
+                    else:
+                        c('touch:without-update')
                 else:
                     # a rebinding builds a new neighbour structure
                     stale = False
+                if peer is not None:
+                    if op['op'] == 'newarrays':
+                        peer.follow(ses)
+                        peer_stale = False
+                    else:
+                        peer.specs = list(ses.specs)
+                        if op['op'] == 'mutate':
+                            peer_stale = True
     except ImplError as e:
         rec['fails'].append({'key': 'C14:%s:raises' % cfg['method'],
                              'demand': 'operation %d of the history succeeds' % t,
                              'observed': str(e)})
         c('history-aborted-by-exception')
     # ---- driver: binding lines first (stateful), then the point lines
+    if peer is not None:
+        # the second evaluator's target points (ravel / smoothing length lines)
+        ses.rlines = ses.rlines + peer.rlines
     lines = list(ses.blines) + [r[0] for r in ses.rlines]
     for o in obs:
         lines += o['lines']
@@ -1752,6 +2078,16 @@ def run_case(case, R_like):
             rec['evals'] += 1
             if kind == 'order1':
                 cmp_order1(case, where, exp, extra, m, rec, c)
+            elif kind == 'o1':
+                # the density the call left in the arrays bit for bit; value,
+                # moment matrix and right-hand side as for the per-point lines
+                mm, _, mr = m.partition(' rho ')
+                ee, _, er = exp.partition(' rho ')
+                if not same_floats('rho ' + mr, 'rho ' + er, 'rho '):
+                    rec['disagreements'].append({'case': short(case), 'where': where + ' rho left in the arrays',
+                                                 'model': mr[:400], 'impl': er[:400]})
+                else:
+                    cmp_order1(case, where, ee, extra, mm, rec, c)
             elif kind == 'unflatten':
                 if not same_floats(m, exp, 'res '):
                     rec['disagreements'].append({'case': short(case), 'where': where,
@@ -2099,6 +2435,69 @@ def corpus(cfg):
             {'op': 'newpoints', 'points': scattered({'x': 'int32', 'y': 'float64', 'z': 'float32'})},
             dict(io)]
         out.append(case)
+    if True:
+        # state shared between calls and between evaluators: data of the source
+        # arrays changed in place WITHOUT update() (masses, densities, property
+        # values: the neighbour lists stay valid), and a second Interpolator /
+        # SPHEvaluator over the same arrays running in between (it writes their
+        # temp_prop and, with order1, their rho); every interpolate() must give
+        # the defining sums of the data as they are at the call.  (round-4 seed
+        # B: order1 skipped SummationDensity and the moment-matrix group on later
+        # calls "when nothing moved": the matrix of an earlier call was solved
+        # against a right-hand side with the present volumes.)
+        rng = random.Random(1407)
+        case = gen_case(rng, cfg, nops=0, prefill=0.0, scale=1.0, dtype='float64',
+                        force_tagged=False)
+        d = cfg['dim']
+        o1 = cfg['method'] == 'order1'
+        n = 6
+        q = {'kind': 'explicit', 'shape': None}
+        for k, key in enumerate('xyz'):
+            q[key] = [rng.uniform(0.25, 0.75) if k < d else 0.0 for _ in range(n)]
+        if cfg['api'] != 'interp':
+            q['gain'] = 1.25
+        case['points'] = q
+        cur = list(case['arrays'])
+        prop = 'lin' if o1 else 'p'
+        ops = [{'op': 'interp', 'prop': prop, 'comp': 0}]
+
+        def touch(k, what):
+            op = gen_touch(rng, cfg, cur, k=k, what=what)
+            cur[k] = touched_spec(cur[k], op)
+            ops.append(op)
+        touch(0, 'm')
+        ops.append({'op': 'interp', 'prop': prop, 'comp': 1 if o1 else 0})
+        if peer_cfg(cfg) is not None:
+            pq = {'kind': 'explicit', 'shape': None}
+            for k, key in enumerate('xyz'):
+                pq[key] = [rng.uniform(0.2, 0.8) if k < d else 0.0 for _ in range(4)]
+            if cfg['api'] != 'interp':
+                pq['gain'] = 0.75
+            ops.append({'op': 'peer', 'points': pq,
+                        'calls': [{'prop': 'q', 'comp': 0}, {'prop': prop, 'comp': 0}]})
+            ops.append({'op': 'interp', 'prop': prop, 'comp': 0})
+            ops.append({'op': 'interp', 'prop': prop, 'comp': d if o1 else 0})
+        touch(cfg['narr'] - 1, 'all')
+        ops.append({'op': 'interp', 'prop': 'p', 'comp': 0})
+        ops.append({'op': 'interp', 'prop': prop, 'comp': 0})
+        if peer_cfg(cfg) is not None:
+            ops.append({'op': 'peer', 'points': None, 'calls': [{'prop': 'c', 'comp': 0}]})
+            touch(0, 'rho')
+            ops.append({'op': 'interp', 'prop': 'c' if o1 else 'q', 'comp': 0})
+        if not cfg['periodic']:
+            # ... and the smoothing lengths GROW in place, followed by update():
+            # the cell size of the neighbour structure must follow (round-1 seed
+            # B: update() skipped update_domain without a domain manager)
+            mut = gen_mutate(rng, cfg, cur, case['lin'], case['const'], case['psets'], k=0)
+            hmax = max(max(sp['h']) for sp in cur)
+            mut['new']['h'] = [1.8 * hmax] * len(mut['new']['h'])
+            mut['update'] = True
+            mut['update_domain'] = True
+            cur[0] = mut['new']
+            ops.append(mut)
+            ops.append({'op': 'interp', 'prop': prop, 'comp': 0})
+        case['ops'] = ops
+        out.append(case)
     if cfg['method'] == 'sphc':
         # equations that read array constants: the arrays are replaced by arrays
         # with other constants, a constant is changed in place, the points (the
@@ -2171,7 +2570,9 @@ def main():
         'arrays whose property sets may differ and which may arrive with a used temp_prop, '
         'then 1-16 operations among interpolate of various properties in sequence / in-place '
         'change + update / update_particle_arrays / set_interpolation_points / set_domain / '
-        'moved points; explicit points as 1-d to 4-d arrays in C / Fortran / permuted / strided / '
+        'moved points / in-place change of masses, densities, property values, constants WITHOUT '
+        'update / calls of a second Interpolator or SPHEvaluator built over the same source arrays '
+        '(order1: with another kernel); explicit points as 1-d to 4-d arrays in C / Fortran / permuted / strided / '
         'reversed memory layouts and as float64 / float32 / int64 / int32 arrays or Python lists, '
         'in the unit box or a box of side 4 or 6; every array with constants of its own, read by '
         'user-supplied equations in the sphc configurations; order1 arrays with or without rho, '
@@ -2180,6 +2581,7 @@ def main():
         'target points their coordinates and smoothing lengths) compared bit for '
         'bit with the model, plus one per history; distinct = distinct history JSON; non-trivial = some '
         'destination point with at least two listed neighbours')
+    load_probes(a.work)
     if a.replay:
         rp = json.load(open(a.replay))
         case = rp['case']
